@@ -156,6 +156,84 @@ op_enc_cek_io(json_t *args)
     return res;
 }
 
+/* jwe.enc_io {jwe, rcp?, jwk, feeds, rand}: jose_jwe_enc_io over a malloc sink */
+static json_t *
+op_enc_io(json_t *args)
+{
+    json_t *jwe = json_deep_copy(hx_arg(args, "jwe"));
+    json_t *rcp = json_deep_copy(hx_arg(args, "rcp"));
+    json_t *feeds = hx_arg(args, "feeds");
+    void *ct = NULL;
+    size_t ctl = 0;
+    jose_io_t *o = jose_io_malloc(NULL, &ct, &ctl);
+    jose_io_t *io;
+    bool ok;
+    json_t *res;
+    size_t i;
+    json_t *f;
+    hx_tape_set(args);
+    io = jose_jwe_enc_io(NULL, jwe, rcp, hx_arg(args, "jwk"), o);
+    ok = io != NULL;
+    if (io) {
+        json_array_foreach(feeds, i, f) {
+            size_t len = 0;
+            uint8_t *b = hx_unhex(json_string_value(f), &len);
+            ok = io->feed(io, b, len);
+            free(b);
+            if (!ok)
+                break;
+        }
+        ok = ok && io->done(io);
+    }
+    hx_tape_clear();
+    if (ok && json_object_set_new(jwe, "ciphertext", jose_b64_enc(ct ? ct : "", ctl)) < 0)
+        ok = false;
+    res = json_pack("{s:b}", "ok", ok);
+    if (ok)
+        json_object_set(res, "jwe", jwe);
+    jose_io_decref(io);
+    jose_io_decref(o);
+    json_decref(jwe);
+    json_decref(rcp);
+    return res;
+}
+
+/* jwe.dec_io {jwe, rcp?, jwk, feeds (raw ciphertext bytes), rand}: jose_jwe_dec_io over a malloc sink */
+static json_t *
+op_dec_io(json_t *args)
+{
+    json_t *feeds = hx_arg(args, "feeds");
+    void *pt = NULL;
+    size_t ptl = 0;
+    jose_io_t *o = jose_io_malloc(NULL, &pt, &ptl);
+    jose_io_t *io;
+    bool ok;
+    json_t *res;
+    size_t i;
+    json_t *f;
+    hx_tape_set(args);
+    io = jose_jwe_dec_io(NULL, hx_arg(args, "jwe"), hx_arg(args, "rcp"), hx_arg(args, "jwk"), o);
+    ok = io != NULL;
+    if (io) {
+        json_array_foreach(feeds, i, f) {
+            size_t len = 0;
+            uint8_t *b = hx_unhex(json_string_value(f), &len);
+            ok = io->feed(io, b, len);
+            free(b);
+            if (!ok)
+                break;
+        }
+        ok = ok && io->done(io);
+    }
+    hx_tape_clear();
+    res = json_pack("{s:b}", "ok", ok);
+    if (ok)
+        json_object_set_new(res, "pt", hx_hex(pt ? pt : "", ptl));
+    jose_io_decref(io);
+    jose_io_decref(o);
+    return res;
+}
+
 static json_t *
 op_dec_jwk(json_t *args)
 {
@@ -259,6 +337,8 @@ const op_t ops_jwe[] = {
     { "jwe.dec_jwk", op_dec_jwk },
     { "jwe.dec_cek", op_dec_cek },
     { "jwe.dec_cek_io", op_dec_cek_io },
+    { "jwe.enc_io", op_enc_io },
+    { "jwe.dec_io", op_dec_io },
     { "jwe.dec", op_dec },
     { "jwk.gen", op_gen },
     { "jwk.exc", op_exc },
